@@ -234,6 +234,10 @@ def check_new_ids(ctx, what, rc):
     except ImportError:
         return True
     for i, g in new:
+        if i is None or g is None:
+            ctx.mismatch('request-id-missing', '%s: a request was served without the identifiers the framework assigns (request_id %r, request_guid %r)'
+                         % (what, i, g), rc)
+            return False
         if i is not None and g is not None and int2hexguid(i) != g:
             ctx.mismatch('request-guid-of-other-request', '%s: request id %r was given guid %s; alone it gets %s' % (what, i, g, int2hexguid(i)), rc)
             return False
@@ -332,6 +336,9 @@ def run_pairs2(spec, ctx):
 def _check_ids(ctx):
     from vlib.shard import Violation
     ids = [i for i, _ in IDS if i is not None]
+    if len(ids) != len(IDS) or any(g is None for _, g in IDS):
+        ctx.record(Violation('request-id-missing', '%d of %d requests were served without a request_id / request_guid'
+                             % (sum(1 for i, g in IDS if i is None or g is None), len(IDS)), {'ids': 'missing'}), 'ids')
     if len(ids) != len(set(ids)):
         ctx.record(Violation('request-id-duplicate', 'request identifiers repeat: %d requests, %d distinct ids' % (len(ids), len(set(ids))),
                              {'ids': 'duplicate'}), 'ids')
